@@ -48,9 +48,8 @@ func (b *exampleBuilder) Build(node ischema.Node) ([]byte, error) {
 }
 
 func (b *exampleBuilder) buildExampleForObjectNode(node *ischema.ObjectNode) ([]byte, error) {
-	if node.Constraint(constraint.TypesListConstraintType) != nil {
-		return nil, errs.ErrUserTypeFound.F()
-	}
+	// An object with the "or" rule is an empty object (the compiler refuses
+	// anything else) which stands for itself in the example.
 
 	buf := exampleBufferPool.Get()
 	defer exampleBufferPool.Put(buf)
@@ -103,9 +102,8 @@ func (b *exampleBuilder) buildObjectKey(k ischema.ObjectNodeKey) ([]byte, error)
 }
 
 func (b *exampleBuilder) buildExampleForArrayNode(node *ischema.ArrayNode) ([]byte, error) {
-	if node.Constraint(constraint.TypesListConstraintType) != nil {
-		return nil, errs.ErrUserTypeFound.F()
-	}
+	// An array with the "or" rule is an empty array (the compiler refuses
+	// anything else) which stands for itself in the example.
 
 	buf := exampleBufferPool.Get()
 	defer exampleBufferPool.Put(buf)
